@@ -296,7 +296,7 @@ def class_method(fi):
 
 # ======================================================================================================
 # load-time normalisation of a whole function (sa/loader.py): the pinned tree's vocabulary is the canonical form
-PURE_CALLS = {'len', 'min', 'max', 'abs', 'int'}
+PURE_CALLS = {'len', 'min', 'max', 'abs', 'int', 'range'}      # range objects are immutable
 
 
 def _movable(e):
@@ -689,9 +689,335 @@ def index_loops(fnode, keep=frozenset()):
     return fn
 
 
+def _terminates(stmts):
+    return bool(stmts) and isinstance(stmts[-1], (ast.Return, ast.Raise, ast.Continue, ast.Break))
+
+
+class _Rename(ast.NodeTransformer):
+    def __init__(self, m):
+        self.m = m
+
+    def visit_Name(self, node):
+        if node.id in self.m:
+            return ast.copy_location(ast.Name(id=self.m[node.id], ctx=node.ctx), node)
+        return node
+
+
+def _shift_cols(node, off):
+    for x in ast.walk(node):
+        if hasattr(x, 'col_offset'):
+            x.col_offset += off
+            if getattr(x, 'end_col_offset', None) is not None:
+                x.end_col_offset += off
+    return node
+
+
+def sink_common_tail(known):
+    """pass factory.  The inverse of "hoist the common tail out of the branches":
+
+        if a: S1; x = e1     elif b: S2; x = e2     else: raise / S3; x = e3
+        TAIL(x)                                             (x: names the pinned version of the function does not have)
+
+    becomes the chain with a copy of TAIL appended to every branch that falls through (x renamed apart per branch, so that
+    the temporary-inlining pass can put e1 / e2 back into the copy).  Tail duplication preserves the semantics; it is
+    applied only when every branch that falls through binds all of those names and the chain has an else."""
+    known = set(known)
+    counter = [0]
+
+    def run(fnode):
+        fn = copy.deepcopy(fnode)
+        changed = True
+        rounds = 0
+        while changed and rounds < 6:
+            changed = False
+            rounds += 1
+            for n in list(ast.walk(fn)):
+                for f in ('body', 'orelse', 'finalbody'):
+                    blk = getattr(n, f, None)
+                    if not (isinstance(blk, list) and blk and isinstance(blk[0], ast.stmt)):
+                        continue
+                    for k, s in enumerate(blk):
+                        if not isinstance(s, ast.If) or not blk[k + 1:]:
+                            continue
+                        # branches of the chain
+                        branches = []
+                        cur = s
+                        while True:
+                            branches.append(cur.body)
+                            if len(cur.orelse) == 1 and isinstance(cur.orelse[0], ast.If):
+                                cur = cur.orelse[0]
+                                continue
+                            branches.append(cur.orelse)
+                            break
+                        if not branches[-1]:
+                            continue                    # no else: one way through the chain binds nothing
+                        falls = [b for b in branches if not _terminates(b)]
+                        if len(falls) < 2:
+                            continue
+
+                        def bound(b):
+                            out = set()
+                            for st in b:
+                                if isinstance(st, ast.Assign):
+                                    for t in st.targets:
+                                        for x in ([t] if isinstance(t, ast.Name) else (t.elts if isinstance(t, ast.Tuple) else [])):
+                                            if isinstance(x, ast.Name):
+                                                out.add(x.id)
+                            return out
+                        common = set.intersection(*[bound(b) for b in falls]) - known
+                        tail = blk[k + 1:]
+                        used = {x.id for t in tail for x in ast.walk(t) if isinstance(x, ast.Name) and isinstance(x.ctx, ast.Load)}
+                        names = common & used
+                        if not names:
+                            continue
+                        # every other read of these names must be served by a chain of its own (the same idiom elsewhere in the
+                        # function): a read that could see the values bound here from outside the tail forbids the renaming
+                        tail_ids = {id(y) for t in tail for y in ast.walk(t)} | {id(y) for b in branches for st in b for y in ast.walk(st)}
+
+                        def served(x):
+                            for n2 in ast.walk(fn):
+                                for f2 in ('body', 'orelse', 'finalbody'):
+                                    b2 = getattr(n2, f2, None)
+                                    if not (isinstance(b2, list) and b2 and isinstance(b2[0], ast.stmt)):
+                                        continue
+                                    for k2, s2 in enumerate(b2):
+                                        if any(x is y for y in ast.walk(s2)):
+                                            prev = [p_ for p_ in b2[:k2] if isinstance(p_, ast.If) and
+                                                    any(isinstance(z, ast.Name) and z.id == x.id and isinstance(z.ctx, ast.Store)
+                                                        for z in ast.walk(p_))]
+                                            if prev:
+                                                return True
+                            return False
+                        others = [x for x in ast.walk(fn) if isinstance(x, ast.Name) and x.id in names and isinstance(x.ctx, ast.Load)
+                                  and id(x) not in tail_ids]
+                        if any(not served(x) for x in others):
+                            continue
+                        for b in falls:
+                            counter[0] += 1
+                            m = {nm: f'{nm}__b{counter[0]}' for nm in names}
+                            b[:] = [_Rename(m).visit(st) for st in b]
+                            b.extend(_shift_cols(_Rename(m).visit(copy.deepcopy(t)), 1000 * counter[0]) for t in tail)
+                        del blk[k + 1:]
+                        changed = True
+                        break
+                    if changed:
+                        break
+                if changed:
+                    break
+        ast.fix_missing_locations(fn)
+        return fn
+    return run
+
+
+def elif_to_ifs(fnode):
+    """`if a: ..return/raise  elif b: ..return/raise  else: R`  ->  `if a: ..  if b: ..  R`   (every tested branch leaves)"""
+    fn = copy.deepcopy(fnode)
+    changed = True
+    while changed:
+        changed = False
+        for n in list(ast.walk(fn)):
+            for f in ('body', 'orelse', 'finalbody'):
+                blk = getattr(n, f, None)
+                if not (isinstance(blk, list) and blk and isinstance(blk[0], ast.stmt)):
+                    continue
+                for k, s in enumerate(blk):
+                    if isinstance(s, ast.If) and s.orelse and _terminates(s.body) and \
+                            isinstance(s.body[-1], (ast.Return, ast.Raise)):
+                        rest = s.orelse
+                        s.orelse = []
+                        blk[k + 1:k + 1] = rest
+                        changed = True
+                        break
+                if changed:
+                    break
+            if changed:
+                break
+    ast.fix_missing_locations(fn)
+    return fn
+
+
+def split_redefinitions(known):
+    """pass factory: a new local that is bound several times, each time by a plain assignment in some block and read only in
+    the rest of that block up to its next binding there (a scratch name reused section after section), is renamed apart
+    - one name per binding - so that each can be treated as the single-assignment temporary it is."""
+    known = set(known)
+    counter = [0]
+
+    def run(fnode):
+        fn = copy.deepcopy(fnode)
+        stores = _store_counts(fn)
+        cands = {n for n, c in stores.items() if c > 1 and n not in known and n != '_'}
+        for name in sorted(cands):
+            regions = []        # (block, index of def, end index)
+            ok = True
+            all_nodes = [x for x in ast.walk(fn) if isinstance(x, ast.Name) and x.id == name]
+            covered = set()
+            for n in ast.walk(fn):
+                for f in ('body', 'orelse', 'finalbody'):
+                    blk = getattr(n, f, None)
+                    if not (isinstance(blk, list) and blk and isinstance(blk[0], ast.stmt)):
+                        continue
+                    idx = [k for k, st in enumerate(blk) if isinstance(st, ast.Assign) and len(st.targets) == 1 and
+                           isinstance(st.targets[0], ast.Name) and st.targets[0].id == name]
+                    for a, k in enumerate(idx):
+                        end = idx[a + 1] if a + 1 < len(idx) else len(blk)
+                        # the definition itself must not read the name; the region must not rebind it otherwise
+                        if any(isinstance(x, ast.Name) and x.id == name for x in ast.walk(blk[k].value)):
+                            ok = False
+                        for st in blk[k + 1:end]:
+                            if any(isinstance(x, ast.Name) and x.id == name and isinstance(x.ctx, ast.Store) for x in ast.walk(st)):
+                                ok = False
+                        regions.append((blk, k, end))
+                        covered.add(id(blk[k].targets[0]))
+                        for st in blk[k + 1:end]:
+                            covered |= {id(x) for x in ast.walk(st) if isinstance(x, ast.Name) and x.id == name}
+            if not ok or len(regions) < 2 or any(id(x) not in covered for x in all_nodes):
+                continue
+            for blk, k, end in regions:
+                counter[0] += 1
+                m = {name: f'{name}__r{counter[0]}'}
+                blk[k].targets[0] = ast.copy_location(ast.Name(id=m[name], ctx=ast.Store()), blk[k].targets[0])
+                for j in range(k + 1, end):
+                    blk[j] = _Rename(m).visit(blk[j])
+        ast.fix_missing_locations(fn)
+        return fn
+    return run
+
+
+def block_alloc_to_counter(fnode):
+    """T = {k: C(c + n, ..) for n, k in enumerate(S)} ; c += len(S)      (a block of consecutive ids taken at once)
+         ->   T = {} ; for k in S: T[k] = C(c, ..) ; c += 1              (one id per element: the counter idiom)
+    n occurs only as `c + n`; nothing between the two statements mentions c; S is the same expression in both."""
+    fn = copy.deepcopy(fnode)
+    for blk in [getattr(n, f) for n in ast.walk(fn) for f in ('body', 'orelse', 'finalbody')
+                if isinstance(getattr(n, f, None), list) and getattr(n, f) and isinstance(getattr(n, f)[0], ast.stmt)]:
+        i = 0
+        while i < len(blk):
+            s = blk[i]
+            comp = s.value if isinstance(s, ast.Assign) and len(s.targets) == 1 and isinstance(s.value, ast.DictComp) else None
+            if comp is None or len(comp.generators) != 1 or comp.generators[0].ifs:
+                i += 1
+                continue
+            g = comp.generators[0]
+            if not (isinstance(g.iter, ast.Call) and norm(g.iter.func) == 'enumerate' and len(g.iter.args) == 1 and
+                    isinstance(g.target, ast.Tuple) and len(g.target.elts) == 2 and isinstance(g.target.elts[0], ast.Name)):
+                i += 1
+                continue
+            nvar, kexpr, S = g.target.elts[0].id, g.target.elts[1], g.iter.args[0]
+            if norm(comp.key) != norm(kexpr):
+                i += 1
+                continue
+            # uses of n: only inside `c + n` / `n + c` with one counter name c
+            occ = [x for x in ast.walk(comp.value) if isinstance(x, ast.Name) and x.id == nvar]
+            sums = [b for b in ast.walk(comp.value) if isinstance(b, ast.BinOp) and isinstance(b.op, ast.Add) and
+                    ((isinstance(b.left, ast.Name) and isinstance(b.right, ast.Name) and nvar in (b.left.id, b.right.id)))]
+            if not occ or len(occ) != len(sums):
+                i += 1
+                continue
+            cs = {(b.left.id if b.right.id == nvar else b.right.id) for b in sums}
+            if len(cs) != 1:
+                i += 1
+                continue
+            c = next(iter(cs))
+            # the matching `c += len(S)` later in the block, nothing in between mentioning c
+            j = None
+            for k in range(i + 1, len(blk)):
+                t = blk[k]
+                if isinstance(t, ast.AugAssign) and isinstance(t.op, ast.Add) and norm(t.target) == c and \
+                        norm(t.value) == f'len({norm(S)})':
+                    j = k
+                    break
+                if any(isinstance(x, ast.Name) and x.id == c for x in ast.walk(t)):
+                    break
+            if j is None:
+                i += 1
+                continue
+
+            class R(ast.NodeTransformer):
+                def visit_BinOp(self, node):
+                    self.generic_visit(node)
+                    if node in sums or (isinstance(node.op, ast.Add) and isinstance(node.left, ast.Name) and
+                                        isinstance(node.right, ast.Name) and {node.left.id, node.right.id} == {c, nvar}):
+                        return ast.copy_location(ast.Name(id=c, ctx=ast.Load()), node)
+                    return node
+            val = R().visit(copy.deepcopy(comp.value))
+            tgt = s.targets[0]
+            init = ast.copy_location(ast.Assign(targets=[tgt], value=ast.Dict(keys=[], values=[])), s)
+            store = ast.Assign(targets=[ast.Subscript(value=copy.deepcopy(tgt), slice=copy.deepcopy(kexpr), ctx=ast.Store())], value=val)
+            for x in ast.walk(store.targets[0].value):
+                if hasattr(x, 'ctx'):
+                    x.ctx = ast.Load()
+            inc = ast.AugAssign(target=ast.Name(id=c, ctx=ast.Store()), op=ast.Add(), value=ast.Constant(value=1))
+            ktarget = copy.deepcopy(kexpr)
+            for x in ast.walk(ktarget):
+                if hasattr(x, 'ctx'):
+                    x.ctx = ast.Store()
+            loop = ast.copy_location(ast.For(target=ktarget, iter=copy.deepcopy(S), body=[store, inc], orelse=[]), s)
+            del blk[j]
+            blk[i:i + 1] = [init, loop]
+            i += 2
+    ast.fix_missing_locations(fn)
+    return fn
+
+
+def zip_collected_lists(fnode):
+    """X = [f(v) for v in Q] ; Y = [g(v) for v in Q] ; ... ; for v, x, y in zip(Q, X, Y): BODY     (X, Y used nowhere else)
+         ->   for v in Q: x = f(v) ; y = g(v) ; BODY
+    The names f / g read are not stored in BODY nor between the definitions and the loop."""
+    fn = copy.deepcopy(fnode)
+    for blk in [getattr(n, f) for n in ast.walk(fn) for f in ('body', 'orelse', 'finalbody')
+                if isinstance(getattr(n, f, None), list) and getattr(n, f) and isinstance(getattr(n, f)[0], ast.stmt)]:
+        for li, lp in enumerate(list(blk)):
+            if not (isinstance(lp, ast.For) and isinstance(lp.iter, ast.Call) and norm(lp.iter.func) == 'zip' and
+                    isinstance(lp.target, ast.Tuple) and len(lp.target.elts) == len(lp.iter.args) >= 2 and
+                    all(isinstance(a, ast.Name) for a in lp.iter.args[1:])):
+                continue
+            Q = lp.iter.args[0]
+            defs = []
+            ok = True
+            for a in lp.iter.args[1:]:
+                d = [st for st in blk[:blk.index(lp)] if isinstance(st, ast.Assign) and len(st.targets) == 1 and
+                     norm(st.targets[0]) == a.id]
+                uses = [x for x in ast.walk(fn) if isinstance(x, ast.Name) and x.id == a.id]
+                if len(d) != 1 or len(uses) != 2 or not isinstance(d[0].value, ast.ListComp) or \
+                        len(d[0].value.generators) != 1 or d[0].value.generators[0].ifs or \
+                        norm(d[0].value.generators[0].iter) != norm(Q) or not isinstance(d[0].value.generators[0].target, ast.Name):
+                    ok = False
+                    break
+                defs.append(d[0])
+            if not ok or not isinstance(lp.target.elts[0], ast.Name):
+                continue
+            v = lp.target.elts[0].id
+            first = min(blk.index(d) for d in defs)
+            between = blk[first:blk.index(lp)]
+            reads = {x.id for d in defs for x in ast.walk(d.value.elt) if isinstance(x, ast.Name)} | \
+                {x.id for x in ast.walk(Q) if isinstance(x, ast.Name)}
+            stored = {x.id for st in between + lp.body for x in ast.walk(st) if isinstance(x, ast.Name) and isinstance(x.ctx, ast.Store)
+                      and not any(st is d for d in defs)}
+            if (reads - {d.value.generators[0].target.id for d in defs}) & stored:
+                continue
+            pre = []
+            for d, t in zip(defs, lp.target.elts[1:]):
+                gv = d.value.generators[0].target.id
+                e = _Rename({gv: v}).visit(copy.deepcopy(d.value.elt))
+                pre.append(ast.copy_location(ast.Assign(targets=[copy.deepcopy(t)], value=e), d))
+            lp.target = lp.target.elts[0]
+            lp.iter = Q
+            lp.body = pre + lp.body
+            for d in defs:
+                blk.remove(d)
+    ast.fix_missing_locations(fn)
+    return fn
+
+
 def normalise_function(fnode, known_locals, known_spellings=()):
     keep = frozenset(known_spellings)
     fn = negative_indices(fnode)
+    if any(isinstance(x, ast.Name) and isinstance(x.ctx, ast.Store) and x.id not in known_locals for x in ast.walk(fn)):
+        before = ast.dump(fn)
+        fn = sink_common_tail(known_locals)(fn)
+        if ast.dump(fn) != before:
+            fn = elif_to_ifs(fn)
     fn = reduce_to_loop(fn)
     fn = update_dictcomp_to_loop(fn)
     fn = fuse_collect_loops(fn)
@@ -700,7 +1026,17 @@ def normalise_function(fnode, known_locals, known_spellings=()):
     fn = aug_from_binop(fn, keep)
     fn = index_loops(fn, keep)
     fn = forward_site_stores(known_locals)(fn)
+    if any(isinstance(x, ast.Name) and isinstance(x.ctx, ast.Store) and x.id not in known_locals for x in ast.walk(fn)):
+        fn = split_redefinitions(known_locals)(fn)
     fn = inline_unknown_temps(known_locals, keep)(fn)
+    if any(isinstance(x, ast.DictComp) for x in ast.walk(fn)):
+        before = ast.dump(fn)
+        fn = block_alloc_to_counter(fn)
+        if ast.dump(fn) != before:
+            fn = inline_unknown_temps(known_locals, keep)(fn)
+    if any(isinstance(x, ast.For) and isinstance(x.iter, ast.Call) and norm(x.iter.func) == 'zip' and shape_key(x) not in keep
+           for x in ast.walk(fn)):
+        fn = zip_collected_lists(fn)
     if any(isinstance(x, ast.Name) and x.id not in known_locals for x in ast.walk(fn)):
         # a constant dummy neighbour held in a new local goes back to its argument positions (the helpers it is handed to
         # never write their arguments: C19.PURE, checked on the same tree)
